@@ -12,7 +12,9 @@ DESCRIPTION = {
              "Generated: Hypothesis payloads (sizes biased to 127/128 and 16-byte block edges, up to 64KiB quick/1MiB thorough), "
              "random keys, multi-way chunkings; non-trivial by the same rule, distinct by digest of (impl,key,len,offset,chunks). "
              "Oracle: out[i]==in[i]^key[(offset+i)%4] computed with big-int XOR, pointer()==bytes processed, "
-             "involution, chunked==one-shot. Mask policy: wire log of library client/server pairs."),
+             "involution, chunked==one-shot. Mask policy: wire log of library client/server pairs through every send API (sendMessage with and without fragmentation, "
+             "frame-wise, streaming, prepared): every client frame masked, no server frame masked, and no two client frames share a key (the 32-bit key draw is replaced by a "
+             "collision-free sequence inside the check, so an equal key means that no new key was drawn)."),
     "assumptions": [
         "native code is compiled from the working tree's src/autobahn/nvx/_xormasker.c with cffi on every run",
         "SIMD paths: only those the sandbox compiler/CPU enable (SSE2); reported in notes",
